@@ -4,7 +4,7 @@
 use serde_json::{json, Map, Value};
 use std::collections::BTreeMap;
 
-pub const VERIF_DIR: &str = "/verif";
+pub fn verif_dir() -> String { std::env::var("VERIF_HOME").unwrap_or_else(|_| "/verif".to_string()) }
 
 #[derive(Clone, Debug)]
 pub struct Found {
@@ -33,7 +33,7 @@ pub struct Report {
 }
 
 fn load_known() -> Vec<Value> {
-    let path = format!("{}/known_findings.json", VERIF_DIR);
+    let path = format!("{}/known_findings.json", verif_dir());
     match std::fs::read_to_string(&path) {
         Ok(s) => match serde_json::from_str::<Value>(&s) {
             Ok(v) => v["findings"].as_array().cloned().unwrap_or_default(),
@@ -100,8 +100,8 @@ impl Report {
     /// Writes evidence and replay files, prints the verdict lines, returns the process exit code.
     pub fn finish(mut self) -> i32 {
         let known = load_known();
-        let evidence_dir = format!("{}/evidence", VERIF_DIR);
-        let replay_dir = format!("{}/evidence/replays", VERIF_DIR);
+        let evidence_dir = format!("{}/evidence", verif_dir());
+        let replay_dir = format!("{}/evidence/replays", verif_dir());
         let _ = std::fs::create_dir_all(&replay_dir);
 
         let mut known_hits: BTreeMap<String, usize> = BTreeMap::new();
